@@ -95,6 +95,14 @@ fn main() {
     block_on(reporter.set_service_status("a", ServingStatus::Unknown));
     log.lock().unwrap().push(Ev::Write { inv: 0, ret: 0, val: Some(0) });
 
+    // a Check before any concurrency (a later Check must not be answered from stale state)
+    {
+        let mut c = HealthClient::new(server.clone());
+        let inv = tick();
+        let r = block_on(c.check(HealthCheckRequest { service: "a".into() }));
+        let ret = tick();
+        log.lock().unwrap().push(Ev::Check { inv, ret, got: r.ok().map(|x| x.into_inner().status) });
+    }
     let mut hs = vec![];
     // writer 1
     {
@@ -201,8 +209,31 @@ fn main() {
         block_on(reporter.set_service_status("a", ServingStatus::NotServing));
         let ret = tick();
         log.lock().unwrap().push(Ev::Write { inv, ret, val: Some(2) });
+    } else {
+        // a clear that is definitely the last write (writer 2's clear may overlap writer 1's sets)
+        let mut r = reporter.clone();
+        let inv = tick();
+        block_on(r.clear_service_status("a"));
+        let ret = tick();
+        log.lock().unwrap().push(Ev::Write { inv, ret, val: None });
     }
     watcher.join().unwrap();
+    // ---- quiescent: a final Check after every writer has returned
+    {
+        let mut c = HealthClient::new(server.clone());
+        let inv = tick();
+        let r = block_on(c.check(HealthCheckRequest { service: "a".into() }));
+        let ret = tick();
+        let got = match r {
+            Ok(x) => Some(x.into_inner().status),
+            Err(e) if e.code() == tonic::Code::NotFound => None,
+            Err(e) => {
+                println!("C18-MIRI-VIOLATION check failed with {:?}", e.code());
+                std::process::exit(1);
+            }
+        };
+        log.lock().unwrap().push(Ev::Check { inv, ret, got });
+    }
     // ---- quiescent: drain the watcher until it blocks or ends
     let mut blocked = false;
     if let Ok(Some(mut s)) = wrx.recv() {
@@ -232,6 +263,11 @@ fn main() {
         }
     }
     let log = log.lock().unwrap().clone();
+    if std::env::args().nth(2).is_some() {
+        for e in &log {
+            println!("  {e:?}");
+        }
+    }
     judge(&log, blocked);
     println!("c18miri mode={mode} ok: {} events", log.len());
 }
@@ -253,7 +289,8 @@ fn judge(log: &[Ev], blocked: bool) {
     // watcher
     let sub = log.iter().find_map(|e| if let Ev::Sub { inv, ret, ok } = e { Some((*inv, *ret, *ok)) } else { None });
     let Some((sinv, sret, ok)) = sub else { return };
-    let cleared = writes.iter().find(|w| w.2.is_none()).copied();
+    // the clear that ended the watcher's registration: the first clear not before the subscription
+    let cleared = writes.iter().filter(|w| w.2.is_none()).find(|w| w.1 > sinv).copied();
     if !ok {
         // subscription may only be refused if the clear could already have happened
         match cleared {
